@@ -44,7 +44,14 @@ def array2d : Op := fun j => do
   let sc ← getPair (← field j "scales")
   let flip ← getBool (← field j "flip")
   if vals.length ≠ Impl.totalPixels m then throw "shape_mismatch"
-  let hdu := array2dHdu flip m vals sc 0
+  -- optional: the array is held in native form with these (arbitrary under the mask) values
+  let hdu ← match (j.getObjVal? "stored_native").toOption with
+    | some sj => do
+      let nat ← getRats sj
+      match array2dHduStored flip m (.native nat) sc 0 with
+      | some h => pure h
+      | none => throw "shape_mismatch"
+    | none => pure (array2dHdu flip m vals sc 0)
   let r1 ← match array2dFromHdu flip hdu 0 with
     | some r => read2dToJson r
     | none => throw "read_failed"
@@ -76,7 +83,9 @@ def array1d : Op := fun j => do
   let mask ← getBits (← field j "bits")
   let vals ← getRats (← field j "values")
   let s ← getRat (← field j "scale")
-  let hdu := array1dHdu mask vals s 0
+  let hdu ← match (j.getObjVal? "stored_native").toOption with
+    | some sj => do pure (array1dHduNativeStored (← getRats sj) s 0)
+    | none => pure (array1dHdu mask vals s 0)
   let r1 ← match array1dFromHdu hdu with
     | some (v, sc) => pure (obj [("native", ratsToJson v), ("scales", ratsToJson [sc])])
     | none => throw "read_failed"
